@@ -10,8 +10,8 @@ if ! git apply $D/mutant$I.diff 2>/tmp/apply.err; then echo "SEED $(basename $D)
 go build ./... 2>&1 | tail -2
 suite=$(go test -vet=off -count=1 ./... 2>&1 | grep -v "no test files" | grep -c "^ok")
 cp $D/demo${I}_test.go.txt engine/zz_demo${I}_test.go
-with=$(go test -vet=off -count=1 -run "TestDemo$I" ./engine/ 2>&1 | tail -1 | cut -c1-40)
+with=$(go test -vet=off -count=1 -run "Demo$I" ./engine/ 2>&1 | tail -1 | cut -c1-40)
 git checkout -q -- . 
-without=$(go test -vet=off -count=1 -run "TestDemo$I" ./engine/ 2>&1 | tail -1 | cut -c1-40)
+without=$(go test -vet=off -count=1 -run "Demo$I" ./engine/ 2>&1 | tail -1 | cut -c1-40)
 echo "SEED $(basename $D)#$I suite_ok_pkgs=$suite demo_with_change=[$with] demo_without=[$without]"
 cd /; git -C /repo worktree remove --force $W
